@@ -350,6 +350,232 @@ def mon (r : Driver.Report) (name label : String) (n : Nat) (line msg : String) 
   let r := r.bump key
   if seen < 3 then r.addMonitor name n line msg else { r with monitorFail := r.monitorFail + 1 }
 
+def stepFull (r0 : Driver.Report) (s : Sess) (n : Nat) (line label rawS impl : String) : Driver.Report := Id.run do
+  let mut r := r0
+  r := r.bump "op_full"
+  match blockP rawS with
+  | none => r := r.addDisagree n line "bad-op"
+  | some (raw, o) =>
+    r := r.check n line impl (resFull (flatCtx shaHs o.fn) o raw)
+    if resFull (flatCtx shaHs o.fn) o raw ≠ resFull (rfcCtx shaHs o.fn) o raw then r := r.bump "flat_rfc_differ"
+    if impl = "panic" then r := mon r "no_panic" label n line "SequencerBlock::try_from_raw panicked"
+    if some raw = s.implRaw ∧ !impl.startsWith "ok" then
+      r := mon r "honest_accepted" label n line "the built block was rejected"
+    if impl.startsWith "ok" then
+      r := r.bump (if label = "honest" then "full_ok_honest" else "full_ok_tampered")
+      let acc := if impl = "ok same" then some (raw, o) else blockP (impl.drop 3).toString
+      match acc with
+      | none => r := mon r "dump_parse" label n line "cannot parse the accepted block"
+      | some (araw, ao) =>
+        match fullFromRaw (structCtx ao) araw, s.impl with
+        | .value (.ok b), some built =>
+          if b.header.dataHash = built.header.dataHash then
+            match contentMismatch built b.content false with
+            | some msg => r := mon r "accepted_equals_built" label n line msg
+            | none => pure ()
+            if b.header.txsRoot ≠ built.header.txsRoot then
+              r := mon r "accepted_equals_built" label n line "accepted another rollup transactions root for the same data hash"
+          for m in fullProofsOk b do
+            r := mon r "accepted_proofs_verify" label n line s!"accepted, but {m} does not verify"
+        | .value (.ok _), none => pure ()
+        | _, _ => r := mon r "reencode" label n line "the accepted block does not decode again"
+    else r := r.bump s!"res_full_{impl}"
+  return r
+
+def stepFiltered (r0 : Driver.Report) (s : Sess) (n : Nat) (line label rawS impl : String) : Driver.Report := Id.run do
+  let mut r := r0
+  r := r.bump "op_filtered"
+  match filteredP rawS with
+  | none => r := r.addDisagree n line "bad-op"
+  | some (raw, o) =>
+    r := r.check n line impl (resFiltered (flatCtx shaHs o.fn) o raw)
+    if resFiltered (flatCtx shaHs o.fn) o raw ≠ resFiltered (rfcCtx shaHs o.fn) o raw then r := r.bump "flat_rfc_differ"
+    if impl = "panic" then r := mon r "no_panic" label n line "FilteredSequencerBlock::try_from_raw panicked"
+    if s.honestRaws.contains rawS ∧ !impl.startsWith "ok" then
+      r := mon r "honest_accepted" label n line "a filtered block produced by to_filtered_block was rejected"
+    if impl.startsWith "ok" then
+      r := r.bump (if label = "honest" then "filtered_ok_honest" else "filtered_ok_tampered")
+      let acc := if impl = "ok same" then some (raw, o) else filteredP (impl.drop 3).toString
+      match acc with
+      | none => r := mon r "dump_parse" label n line "cannot parse the accepted block"
+      | some (araw, ao) =>
+        match filteredFromRaw (structCtx ao) araw, s.impl with
+        | .value (.ok f), some built =>
+          if f.header.dataHash = built.header.dataHash then
+            match contentMismatch built f.content true with
+            | some msg => r := mon r "accepted_equals_built" label n line msg
+            | none => pure ()
+            if f.allIds ≠ built.ids then
+              r := mon r "accepted_equals_built" label n line "accepted a different list of all rollup ids"
+            if f.header.txsRoot ≠ built.header.txsRoot then
+              r := mon r "accepted_equals_built" label n line "accepted another rollup transactions root for the same data hash"
+          if !pv f.txsProof (shaHs.sha f.header.txsRoot) f.header.dataHash then
+            r := mon r "accepted_proofs_verify" label n line "accepted, but rollup_transactions_proof does not verify"
+          if !pv f.idsProof (shaHs.sha (treeRoot shaHs f.allIds)) f.header.dataHash then
+            r := mon r "accepted_proofs_verify" label n line "accepted, but rollup_ids_proof does not verify"
+          if !eciProofOk f.header.dataHash f.eci then
+            r := mon r "accepted_proofs_verify" label n line "accepted, but the extended commit info proof does not verify"
+          for rt in f.rollups do
+            if !rtProofOk f.header.txsRoot rt then
+              r := mon r "accepted_proofs_verify" label n line s!"accepted, but the proof of rollup {hx rt.id} does not verify"
+        | .value (.ok _), none => pure ()
+        | _, _ => r := mon r "reencode" label n line "the accepted block does not decode again"
+    else r := r.bump s!"res_filtered_{impl}"
+  return r
+
+def stepMeta (r0 : Driver.Report) (s : Sess) (n : Nat) (line label rawS impl : String) : Driver.Report := Id.run do
+  let mut r := r0
+  r := r.bump "op_meta"
+  match metaP rawS with
+  | none => r := r.addDisagree n line "bad-op"
+  | some (raw, o) =>
+    r := r.check n line impl (resMeta (flatCtx shaHs o.fn) o raw)
+    if resMeta (flatCtx shaHs o.fn) o raw ≠ resMeta (rfcCtx shaHs o.fn) o raw then r := r.bump "flat_rfc_differ"
+    if impl = "panic" then r := mon r "no_panic" label n line "SubmittedMetadata::try_from_raw panicked"
+    if s.honestRaws.contains rawS ∧ !impl.startsWith "ok" then
+      r := mon r "honest_accepted" label n line "the metadata produced by split_for_celestia was rejected"
+    if impl.startsWith "ok" then
+      r := r.bump (if label = "honest" then "meta_ok_honest" else "meta_ok_tampered")
+      let acc := if impl = "ok same" then some (raw, o) else metaP (impl.drop 3).toString
+      match acc with
+      | none => r := mon r "dump_parse" label n line "cannot parse the accepted metadata"
+      | some (araw, ao) =>
+        match metaFromRaw (structCtx ao) araw, s.impl with
+        | .value (.ok m), some built =>
+          if m.header.dataHash = built.header.dataHash then
+            if m.ids ≠ built.ids then
+              r := mon r "accepted_equals_built" label n line "accepted a different list of rollup ids"
+            if m.header.txsRoot ≠ built.header.txsRoot then
+              r := mon r "accepted_equals_built" label n line "accepted another rollup transactions root for the same data hash"
+          if !pv m.txsProof (shaHs.sha m.header.txsRoot) m.header.dataHash then
+            r := mon r "accepted_proofs_verify" label n line "accepted, but rollup_transactions_proof does not verify"
+          if !pv m.idsProof (shaHs.sha (treeRoot shaHs m.ids)) m.header.dataHash then
+            r := mon r "accepted_proofs_verify" label n line "accepted, but rollup_ids_proof does not verify"
+          if !eciProofOk m.header.dataHash m.eci then
+            r := mon r "accepted_proofs_verify" label n line "accepted, but the extended commit info proof does not verify"
+        | .value (.ok _), none => pure ()
+        | _, _ => r := mon r "reencode" label n line "the accepted metadata does not decode again"
+    else r := r.bump s!"res_meta_{impl}"
+  return r
+
+def stepBlob (r0 : Driver.Report) (s : Sess) (n : Nat) (line label rawS impl : String) : Driver.Report := Id.run do
+  let mut r := r0
+  r := r.bump "op_blob"
+  match blobP rawS with
+  | none => r := r.addDisagree n line "bad-op"
+  | some raw =>
+    r := r.check n line impl (resBlob raw)
+    if impl = "panic" then r := mon r "no_panic" label n line "SubmittedRollupData::try_from_raw panicked"
+    if s.honestRaws.contains rawS ∧ !impl.startsWith "ok" then
+      r := mon r "honest_accepted" label n line "a rollup blob produced by split_for_celestia was rejected"
+    if impl.startsWith "ok" then r := r.bump "blob_ok" else r := r.bump s!"res_blob_{impl}"
+  return r
+
+
+/-! ### C17: wire lines -/
+
+def txUrl : Bytes := "/astria.protocol.transaction.v1.TransactionBody".toUTF8.toList
+
+def txOracles (key sigok bodyok : Bool) : TxOracles where
+  keyOk := fun _ => key
+  sigOk := fun _ _ _ => sigok
+  bodyOk := fun u _ => bodyok && u == txUrl
+  bodyUrl := txUrl
+  bodyOk_url := by intro u v h; simp only [Bool.and_eq_true, beq_iff_eq] at h; exact h.2
+
+def txErrName : TxErr → String
+  | .signature => "Signature" | .verificationKey => "VerificationKey" | .unsetBody => "UnsetBody"
+  | .verification => "Verification" | .body => "TransactionBody"
+
+/-- `raw=<dump> res=<verdict> re=<0|1|2>` -/
+def wireParts (impl : String) : Option (String × String × String) :=
+  match impl.splitOn " " with
+  | [a, b, c] =>
+    if a.startsWith "raw=" ∧ b.startsWith "res=" ∧ c.startsWith "re=" then
+      some ((a.drop 4).toString, ((b.drop 4).toString).replace "_" " ", (c.drop 3).toString)
+    else none
+  | _ => none
+
+def stepWire (r0 : Driver.Report) (s : Sess) (n : Nat) (line kind label impl : String) : Driver.Report := Id.run do
+  let mut r := r0
+  let wl := s!"wire-{label}"
+  r := r.bump s!"op_wire_{kind}"
+  if impl = "panic" then
+    return mon r "wire_no_panic" wl n line s!"decoding {kind} bytes panicked"
+  if impl = "prost-err" ∨ impl = "not-a-blob" then
+    -- rejected by the byte layer (prost): nothing for the glue model to say
+    return (r.check n line impl impl).bump s!"wire_{impl}"
+  match wireParts impl with
+  | none => return r.addDisagree n line "bad-result"
+  | some (dump, res, re) =>
+    if res = "panic" ∨ re = "2" then r := mon r "wire_no_panic" wl n line s!"{kind}: try_from_raw (or re-encoding) panicked"
+    if re = "0" then r := mon r "wire_reencode" wl n line s!"{kind}: the accepted value does not re-encode to an equivalent message"
+    match kind with
+    | "block" => return stepFull r s n line wl dump res
+    | "filtered" => return stepFiltered r s n line wl dump res
+    | "meta" => return stepMeta r s n line wl dump res
+    | "blob" => return stepBlob r s n line wl dump res
+    | "tx" =>
+      let f := fieldsOf dump
+      let parsed : Option (TxRaw × Bool × Bool × Bool) := do
+        let bodyS ← fget f "body"
+        let body ← if bodyS = "~" then some none else
+          match bodyS.splitOn ";" with
+          | [u, v] => do some (some (← unhx u, ← unhx v))
+          | _ => none
+        some (⟨← unhx (← fget f "sig"), ← unhx (← fget f "pk"), body⟩,
+              (← fget f "key") = "1", (← fget f "sigok") = "1", (← fget f "bodyok") = "1")
+      match parsed with
+      | none => return r.addDisagree n line "bad-result"
+      | some (raw, key, sigok, bodyok) =>
+        let o := txOracles key sigok bodyok
+        let m := match txFromRaw o raw with
+          | .error e => s!"err:{txErrName e}"
+          | .ok t => if t.toRaw o = raw then "ok same" else "ok differs"
+        r := r.check n line res m
+        if res.startsWith "ok" then
+          r := r.bump "wire_tx_ok"
+          if !(key && sigok && bodyok) then
+            r := mon r "wire_accepted_consistent" wl n line "accepted a transaction whose key / signature / body does not check"
+          if res ≠ "ok same" then
+            r := mon r "wire_reencode" wl n line "the accepted transaction re-encodes to a different message"
+        else r := r.bump s!"wire_tx_{res}"
+        return r
+    | "rollupdata" =>
+      let m := match (dump.drop 2).toString.splitOn ";" with
+        | ["~"] => "err:FieldNotSet"
+        | ["seq", _] => "ok same"
+        | ["dep", "1"] => "ok same"
+        | ["dep", "0"] => "err:Deposit"
+        | ["pf", "1"] => "ok same"
+        | ["pf", "0"] => "err:PriceFeedData"
+        | _ => "bad-result"
+      r := r.check n line res m
+      r := r.bump s!"wire_rollupdata_{(res.splitOn " ").headD ""}"
+      return r
+    | "hblob" =>
+      let m := if dump = "!" ∨ dump = "0" then some "0" else do
+        let es ← (dump.splitOn "+").mapM metaP
+        let o : Oracle := es.flatMap (·.2)
+        match convertList (metaFromRaw (flatCtx shaHs o.fn)) (some (es.map (·.1))) with
+        | .panic => some "panic"
+        | .value [] => some "0"
+        | .value l => some s!"{l.length}:{"+".intercalate (l.map fun x => metaS (okOracle x.eci ++ o) x.toRaw)}"
+      r := r.check n line res (m.getD "bad-result")
+      r := r.bump (if res = "0" then "wire_hblob_none" else "wire_hblob_some")
+      return r
+    | "rblob" =>
+      let m := if dump = "!" ∨ dump = "0" then some "0" else do
+        let es ← (dump.splitOn "+").mapM blobP
+        match convertList blobFromRaw (some es) with
+        | .panic => some "panic"
+        | .value [] => some "0"
+        | .value l => some s!"{l.length}:{"+".intercalate (l.map fun x => blobS x.toRaw)}"
+      r := r.check n line res (m.getD "bad-result")
+      r := r.bump (if res = "0" then "wire_rblob_none" else "wire_rblob_some")
+      return r
+    | _ => return r.addDisagree n line "bad-kind"
+
 def run (lines : Array String) : Driver.Report := Id.run do
   let mut r : Driver.Report := {}
   let mut n := 0
@@ -388,115 +614,11 @@ def run (lines : Array String) : Driver.Report := Id.run do
             | _ => r := mon r "dump_parse" label n line "the built block does not decode structurally"
         else
           r := r.bump s!"res_{impl}"
-    | ["block", "full", label, rawS] =>
-      r := r.bump "op_full"
-      match blockP rawS with
-      | none => r := r.addDisagree n line "bad-op"
-      | some (raw, o) =>
-        r := r.check n line impl (resFull (flatCtx shaHs o.fn) o raw)
-        if resFull (flatCtx shaHs o.fn) o raw ≠ resFull (rfcCtx shaHs o.fn) o raw then r := r.bump "flat_rfc_differ"
-        if impl = "panic" then r := mon r "no_panic" label n line "SequencerBlock::try_from_raw panicked"
-        if some raw = s.implRaw ∧ !impl.startsWith "ok" then
-          r := mon r "honest_accepted" label n line "the built block was rejected"
-        if impl.startsWith "ok" then
-          r := r.bump (if label = "honest" then "full_ok_honest" else "full_ok_tampered")
-          let acc := if impl = "ok same" then some (raw, o) else blockP (impl.drop 3).toString
-          match acc with
-          | none => r := mon r "dump_parse" label n line "cannot parse the accepted block"
-          | some (araw, ao) =>
-            match fullFromRaw (structCtx ao) araw, s.impl with
-            | .value (.ok b), some built =>
-              if b.header.dataHash = built.header.dataHash then
-                match contentMismatch built b.content false with
-                | some msg => r := mon r "accepted_equals_built" label n line msg
-                | none => pure ()
-                if b.header.txsRoot ≠ built.header.txsRoot then
-                  r := mon r "accepted_equals_built" label n line "accepted another rollup transactions root for the same data hash"
-              for m in fullProofsOk b do
-                r := mon r "accepted_proofs_verify" label n line s!"accepted, but {m} does not verify"
-            | .value (.ok _), none => pure ()
-            | _, _ => r := mon r "reencode" label n line "the accepted block does not decode again"
-        else r := r.bump s!"res_full_{impl}"
-    | ["block", "filtered", label, rawS] =>
-      r := r.bump "op_filtered"
-      match filteredP rawS with
-      | none => r := r.addDisagree n line "bad-op"
-      | some (raw, o) =>
-        r := r.check n line impl (resFiltered (flatCtx shaHs o.fn) o raw)
-        if resFiltered (flatCtx shaHs o.fn) o raw ≠ resFiltered (rfcCtx shaHs o.fn) o raw then r := r.bump "flat_rfc_differ"
-        if impl = "panic" then r := mon r "no_panic" label n line "FilteredSequencerBlock::try_from_raw panicked"
-        if s.honestRaws.contains rawS ∧ !impl.startsWith "ok" then
-          r := mon r "honest_accepted" label n line "a filtered block produced by to_filtered_block was rejected"
-        if impl.startsWith "ok" then
-          r := r.bump (if label = "honest" then "filtered_ok_honest" else "filtered_ok_tampered")
-          let acc := if impl = "ok same" then some (raw, o) else filteredP (impl.drop 3).toString
-          match acc with
-          | none => r := mon r "dump_parse" label n line "cannot parse the accepted block"
-          | some (araw, ao) =>
-            match filteredFromRaw (structCtx ao) araw, s.impl with
-            | .value (.ok f), some built =>
-              if f.header.dataHash = built.header.dataHash then
-                match contentMismatch built f.content true with
-                | some msg => r := mon r "accepted_equals_built" label n line msg
-                | none => pure ()
-                if f.allIds ≠ built.ids then
-                  r := mon r "accepted_equals_built" label n line "accepted a different list of all rollup ids"
-                if f.header.txsRoot ≠ built.header.txsRoot then
-                  r := mon r "accepted_equals_built" label n line "accepted another rollup transactions root for the same data hash"
-              if !pv f.txsProof (shaHs.sha f.header.txsRoot) f.header.dataHash then
-                r := mon r "accepted_proofs_verify" label n line "accepted, but rollup_transactions_proof does not verify"
-              if !pv f.idsProof (shaHs.sha (treeRoot shaHs f.allIds)) f.header.dataHash then
-                r := mon r "accepted_proofs_verify" label n line "accepted, but rollup_ids_proof does not verify"
-              if !eciProofOk f.header.dataHash f.eci then
-                r := mon r "accepted_proofs_verify" label n line "accepted, but the extended commit info proof does not verify"
-              for rt in f.rollups do
-                if !rtProofOk f.header.txsRoot rt then
-                  r := mon r "accepted_proofs_verify" label n line s!"accepted, but the proof of rollup {hx rt.id} does not verify"
-            | .value (.ok _), none => pure ()
-            | _, _ => r := mon r "reencode" label n line "the accepted block does not decode again"
-        else r := r.bump s!"res_filtered_{impl}"
-    | ["block", "meta", label, rawS] =>
-      r := r.bump "op_meta"
-      match metaP rawS with
-      | none => r := r.addDisagree n line "bad-op"
-      | some (raw, o) =>
-        r := r.check n line impl (resMeta (flatCtx shaHs o.fn) o raw)
-        if resMeta (flatCtx shaHs o.fn) o raw ≠ resMeta (rfcCtx shaHs o.fn) o raw then r := r.bump "flat_rfc_differ"
-        if impl = "panic" then r := mon r "no_panic" label n line "SubmittedMetadata::try_from_raw panicked"
-        if s.honestRaws.contains rawS ∧ !impl.startsWith "ok" then
-          r := mon r "honest_accepted" label n line "the metadata produced by split_for_celestia was rejected"
-        if impl.startsWith "ok" then
-          r := r.bump (if label = "honest" then "meta_ok_honest" else "meta_ok_tampered")
-          let acc := if impl = "ok same" then some (raw, o) else metaP (impl.drop 3).toString
-          match acc with
-          | none => r := mon r "dump_parse" label n line "cannot parse the accepted metadata"
-          | some (araw, ao) =>
-            match metaFromRaw (structCtx ao) araw, s.impl with
-            | .value (.ok m), some built =>
-              if m.header.dataHash = built.header.dataHash then
-                if m.ids ≠ built.ids then
-                  r := mon r "accepted_equals_built" label n line "accepted a different list of rollup ids"
-                if m.header.txsRoot ≠ built.header.txsRoot then
-                  r := mon r "accepted_equals_built" label n line "accepted another rollup transactions root for the same data hash"
-              if !pv m.txsProof (shaHs.sha m.header.txsRoot) m.header.dataHash then
-                r := mon r "accepted_proofs_verify" label n line "accepted, but rollup_transactions_proof does not verify"
-              if !pv m.idsProof (shaHs.sha (treeRoot shaHs m.ids)) m.header.dataHash then
-                r := mon r "accepted_proofs_verify" label n line "accepted, but rollup_ids_proof does not verify"
-              if !eciProofOk m.header.dataHash m.eci then
-                r := mon r "accepted_proofs_verify" label n line "accepted, but the extended commit info proof does not verify"
-            | .value (.ok _), none => pure ()
-            | _, _ => r := mon r "reencode" label n line "the accepted metadata does not decode again"
-        else r := r.bump s!"res_meta_{impl}"
-    | ["block", "blob", label, rawS] =>
-      r := r.bump "op_blob"
-      match blobP rawS with
-      | none => r := r.addDisagree n line "bad-op"
-      | some raw =>
-        r := r.check n line impl (resBlob raw)
-        if impl = "panic" then r := mon r "no_panic" label n line "SubmittedRollupData::try_from_raw panicked"
-        if s.honestRaws.contains rawS ∧ !impl.startsWith "ok" then
-          r := mon r "honest_accepted" label n line "a rollup blob produced by split_for_celestia was rejected"
-        if impl.startsWith "ok" then r := r.bump "blob_ok" else r := r.bump s!"res_blob_{impl}"
+    | ["block", "full", label, rawS] => r := stepFull r s n line label rawS impl
+    | ["block", "filtered", label, rawS] => r := stepFiltered r s n line label rawS impl
+    | ["block", "meta", label, rawS] => r := stepMeta r s n line label rawS impl
+    | ["block", "blob", label, rawS] => r := stepBlob r s n line label rawS impl
+    | ["block", "wire", kind, label, _hex] => r := stepWire r s n line kind label impl
     | ["block", "filter", idsS'] =>
       let label := "filter"
       r := r.bump "op_filter"
